@@ -1,4 +1,63 @@
 import RP.Driver.Common
--- line-protocol driver for property C19 (stub)
-def handle (_line : String) : String := "unimplemented"
+import RP.Driver.F32Text
+import RP.Model.Discount
+/-! line-protocol driver for C19 (binary32 instantiation, `powf` = C `powf`).
+
+`seq <t0> <n> <len> <prior regret bits, prior policy bits>×n <regret bits, policy bits>×n×len`
+      `len` epochs (`add_regret`, `add_policy`, `next`) at one information set with `n` actions, the
+      counter starting at `t0`; answer: `<counter> <walker>` then per action `~regret ~policy ~weight`
+`dpolicy <t>`          `Discount::policy(t)`
+`dregret <t> <bits>`   the factor `add_regret` applies at counter `t` to an added regret
+`phase <t>`            `Phase::from(t)` as 0/1/2
+`walker <t>`, `next <t>` -/
+open RP.Driver RP.Arith RP.Discount
+
+def P32 : Params Float32 := params f32Ops
+def pow32 : Float32 → Float32 → Float32 := Float32.pow
+
+def seqOp (t0 n len : Nat) (xs : Array Nat) : String :=
+  if n = 0 ∨ xs.size ≠ 2 * n + 2 * n * len ∨ xs.any (· ≥ 2 ^ 32) then "bad-op" else
+  let at_ (i : Nat) : Float32 := f32OfBits (xs.getD i 0)
+  let stored := (List.range n).map fun a =>
+    let r := regretAcc f32Ops pow32 P32 t0 (at_ (2 * a)) (fun j => at_ (2 * n + 2 * n * j + 2 * a)) len
+    let p := policyAcc f32Ops pow32 P32 t0 (at_ (2 * a + 1)) (fun j => at_ (2 * n + 2 * n * j + 2 * a + 1)) len
+    (r, p)
+  let pols := stored.map (·.2)
+  let t := counterAfter t0 len
+  joinSp ([toString t, toString (walker t)] ++
+    stored.map fun (r, p) => s!"~{f32ToDec r} ~{f32ToDec p} ~{f32ToDec (weight f32Ops pols p)}")
+
+def phaseCode : Phase → Nat
+  | .discount => 0
+  | .explore => 1
+  | .prune => 2
+
+def handle (line : String) : String :=
+  match words line with
+  | "seq" :: t0 :: n :: len :: rest =>
+    match t0.toNat?, n.toNat?, len.toNat?, natsOf rest with
+    | some t0, some n, some len, some xs => seqOp t0 n len xs.toArray
+    | _, _, _, _ => "bad-op"
+  | ["dpolicy", t] =>
+    match t.toNat? with
+    | some t => "~" ++ f32ToDec (policyDiscount f32Ops pow32 P32 t)
+    | none => "bad-op"
+  | ["dregret", t, b] =>
+    match t.toNat?, b.toNat? with
+    | some t, some b => if b ≥ 2 ^ 32 then "bad-op" else "~" ++ f32ToDec (regretFactor f32Ops pow32 P32 t (f32OfBits b))
+    | _, _ => "bad-op"
+  | ["phase", t] =>
+    match t.toNat? with
+    | some t => toString (phaseCode (phaseOf t))
+    | none => "bad-op"
+  | ["walker", t] =>
+    match t.toNat? with
+    | some t => toString (walker t)
+    | none => "bad-op"
+  | ["next", t] =>
+    match t.toNat? with
+    | some t => toString (next t)
+    | none => "bad-op"
+  | _ => "bad-op"
+
 def main : IO Unit := RP.Driver.run handle
